@@ -190,6 +190,9 @@ def run(program, res, tier):
     _s7_block_alignment(program, res)
     res.rule("C17-S6", "Polars stacks value columns of different dtypes the way Pandas does")
     _s6_polars_stacking(program, res)
+    res.rule("C17-S12", "zero-row record conversions keep the column types")
+    from . import c03 as _c03
+    _c03.empty_frame_types_rule(program, res, rule="C17-S12", methods={"blocks_to_rowrecs", "rowrecs_to_blocks"})
     res.rule("C17-S8", "both data models return the record specification's declared columns in its order")
     from . import c08 as _c08
     from ..report import Relabel as _Relabel
